@@ -4,6 +4,7 @@ package c04
 import (
 	stdjson "encoding/json"
 	"fmt"
+	"strings"
 	"time"
 
 	"verif/checks/sc"
@@ -108,6 +109,36 @@ func slots() []Slot {
 		scalarSlot("nullable-min", gen.KInt, "5", []gen.Rule{R("min", "5"), R("nullable", "true")}, "4"),
 		scalarSlot("const-min", gen.KInt, "5", []gen.Rule{R("const", "true"), R("min", "5")}, "4"),
 	}
+	// or-lists pairing every single-rule scalar slot with a second alternative of
+	// another kind (container kinds, bare names, user types)
+	kindName := map[gen.Kind]string{gen.KInt: "integer", gen.KFloat: "float", gen.KStr: "string", gen.KBool: "boolean", gen.KNull: "null"}
+	alts := []gen.RuleItem{
+		{Set: []gen.Rule{R("type", `"array"`)}}, {Set: []gen.Rule{R("type", `"object"`)}}, {Lit: `"object"`}, {Lit: `"array"`},
+		{Lit: `"@Obj"`}, {Lit: `"@Arr"`}, {Set: []gen.Rule{R("type", `"null"`)}}, {Lit: `"boolean"`},
+	}
+	base := append([]Slot{}, ss...)
+	for _, b := range base {
+		if b.Good.Rule("or") != nil || b.Good.Rule("enum") != nil || b.Good.Rule("type") != nil || b.Good.Rule("const") != nil || b.Good.Rule("nullable") != nil {
+			continue
+		}
+		for ai, alt := range alts {
+			set := append([]gen.Rule{R("type", `"`+kindName[b.Good.Kind]+`"`)}, b.Good.Rules...)
+			for _, first := range []bool{true, false} {
+				items := []gen.RuleItem{{Set: set}, alt}
+				if !first {
+					items = []gen.RuleItem{alt, {Set: set}}
+				}
+				ns := Slot{Name: fmt.Sprintf("or[%s|alt%d|%v]", b.Name, ai, first), Good: sc1(b.Good.Kind, b.Good.Lit, gen.RL("or", items...))}
+				for _, c := range b.Corrupt {
+					if c.Kind != b.Good.Kind {
+						continue // a value of another kind might match the alternative
+					}
+					ns.Corrupt = append(ns.Corrupt, sc1(c.Kind, c.Lit, gen.RL("or", items...)))
+				}
+				ss = append(ss, ns)
+			}
+		}
+	}
 	ss = append(ss,
 		Slot{"minItems", arr([]string{"1", "2"}, R("minItems", "2")), []*gen.Node{arr([]string{"1"}, R("minItems", "2"))}},
 		Slot{"maxItems", arr([]string{"1"}, R("maxItems", "1")), []*gen.Node{arr([]string{"1", "2"}, R("maxItems", "1")), arr([]string{"1", "2", "3"}, R("maxItems", "1"))}},
@@ -117,6 +148,8 @@ func slots() []Slot {
 }
 
 var types = []sc.TypeDecl{
+	{Name: "@Obj", Body: gen.Obj(gen.P("k", gen.Int("1")))},
+	{Name: "@Arr", Body: gen.Arr(gen.Int("1"))},
 	{Name: "@Int", Body: gen.Int("1")},
 	{Name: "@Str", Body: gen.Str(`"s"`)},
 	{Name: "@Ranged", Body: gen.Int("7").With(gen.R("min", "5"), gen.R("max", "10"))},
@@ -343,7 +376,7 @@ func forward(c *ev.Ctx, ss []Slot) {
 				}
 				orig := *leaves[i]
 				for _, s := range ss {
-					if s.Good.Kind == gen.KArr {
+					if s.Good.Kind == gen.KArr || strings.HasPrefix(s.Name, "or[") {
 						continue
 					}
 					*leaves[i] = s.Good.Clone()
